@@ -108,7 +108,7 @@ def main(run):
     proof_ok = run.prove(PROP_FILE, CORR)
     shoot = run.build_shoot()
     run.replay_findings({k: (lambda f: mh.witness_outcome(run, shoot, f))
-                         for k in ("K_map_ctor_func_nil_receiver", "K_map_ctor_arg_unguarded")})
+                         for k in ("K_map_ctor_func_nil_receiver", "K_map_ctor_arg_unguarded", "K_map_promoted_accessor_nil")})
     npairs = 300 if run.thorough() else 40
     budget = 64 if run.thorough() else 24
     fixed = mapgen.corpus()
